@@ -3,7 +3,7 @@
    ISA specification Isa/X86.v, for ALL values.  The per-encoding breadth part is the in-kernel differential
    check of Isa/C01Check.v (processor + specification as oracles). *)
 From Coq Require Import ZArith List Bool NArith.
-From Falcon Require Import Base.Res IL.Const IL.ConstSpec IL.Expr IL.Func Exec.Sem Isa.X86 Isa.X86Lift Isa.X86Mirror Isa.X86Proofs Isa.X86Sim Isa.C01Check Isa.X86Tie Isa.X86SimMem Isa.X86SimStack Isa.X86SimCarry Isa.X86SimMore Isa.X86SimXchg Isa.X86SimMul Isa.X86SimShift.
+From Falcon Require Import Base.Res IL.Const IL.ConstSpec IL.Expr IL.Func Exec.Sem Isa.X86 Isa.X86Lift Isa.X86Mirror Isa.X86Proofs Isa.X86Sim Isa.C01Check Isa.X86Tie Isa.X86SimMem Isa.X86SimStack Isa.X86SimCarry Isa.X86SimMore Isa.X86SimXchg Isa.X86SimMul Isa.X86SimShift Isa.X86SimRot Isa.X86SimCtl.
 Import ListNotations.
 Local Open Scope Z_scope.
 
@@ -518,3 +518,50 @@ Theorem shift1_sim : forall m addr len (o : shop) sz dst,
   sim_when (X86SimMul.opnd_nw sz dst) m addr len (IShift1 o sz dst).
 Proof. exact X86SimShift.shift1_sim. Qed.
 Print Assumptions shift1_sim.
+
+(* 20. round 7: rol / ror (rot_op true = SRol, false = SRor) with imm8 | cl and with the implicit 1: rotation by the masked
+   count modulo the operand size; only CF and OF are written, and kept for a zero masked count *)
+Theorem rot_sim : forall m addr len (isl : bool) sz dst cnt,
+  width_ok sz -> X86SimMul.opnd_ok m sz dst -> isreg dst = true \/ is_mem dst = true -> X86SimMul.opnd_ok m 8 cnt -> is_mem cnt = false ->
+  sim_when (X86SimMul.opnd_nw sz dst) m addr len (IShift (X86SimRot.rot_op isl) sz dst cnt).
+Proof. exact X86SimRot.rot_sim. Qed.
+Print Assumptions rot_sim.
+Theorem rot1_sim : forall m addr len (isl : bool) sz dst,
+  width_ok sz -> X86SimMul.opnd_ok m sz dst -> isreg dst = true \/ is_mem dst = true ->
+  sim_when (X86SimMul.opnd_nw sz dst) m addr len (IShift1 (X86SimRot.rot_op isl) sz dst).
+Proof. exact X86SimRot.rot1_sim. Qed.
+Print Assumptions rot1_sim.
+
+(* 21. round 7: control transfers.  Blocks that end in a Branch operation leave through Goto (il_run_block_goto);
+   blocks followed by guarded successors; the three-block graph of a conditional jump.  The successor list of
+   translate_block is part of the tie (X86Mirror.mirror_succ). *)
+Theorem il_run_block_goto : forall addr body t,
+  (forall o, In o body -> is_branch o = false) ->
+  forall suf pre st st' a fuel,
+    body = pre ++ suf -> X86Proofs.exec_ops st suf = Ok st' -> exec_op st' (OBranch t) = Ok (st', EvBranch a) -> (length suf < fuel)%nat ->
+    X86Run.il_run fuel (mkfunc addr (one_block addr (body ++ [OBranch t])) None) (IL.Loc.LInstr 0 (Z.of_nat (length pre))) st = X86Run.ILFin st' (Some a).
+Proof. exact X86SimCtl.il_run_block_goto. Qed.
+Print Assumptions il_run_block_goto.
+Theorem jmp_rel_sim : forall m addr len t, sim m addr len (IJmpRel t).
+Proof. exact X86SimCtl.jmp_rel_sim. Qed.
+Print Assumptions jmp_rel_sim.
+Theorem jmp_ind_sim : forall m addr len src,
+  X86SimMul.opnd_ok m (wordsz m) src -> isreg src = true \/ is_mem src = true ->
+  sim_when (X86SimMul.opnd_nw (wordsz m) src) m addr len (IJmpInd src).
+Proof. exact X86SimCtl.jmp_ind_sim. Qed.
+Print Assumptions jmp_ind_sim.
+Theorem ret0_sim : forall m addr len, sim_when (X86SimStack.pop_no_wrap m (wordsz m)) m addr len IRet0.
+Proof. exact X86SimCtl.ret0_sim. Qed.
+Print Assumptions ret0_sim.
+Theorem ret_imm_sim : forall m addr len imm, 0 <= imm < 2 ^ 16 -> sim_when (X86SimStack.pop_no_wrap m (wordsz m)) m addr len (IRet imm).
+Proof. exact X86SimCtl.ret_imm_sim. Qed.
+Print Assumptions ret_imm_sim.
+Theorem jcc_sim : forall m addr len c t, cc_no_pf c = true -> sim m addr len (IJcc c t).
+Proof. exact X86SimCtl.jcc_sim. Qed.
+Print Assumptions jcc_sim.
+Theorem jcxz_sim : forall m addr len csz t, reg_operand_ok m csz (OReg 1) -> sim m addr len (IJcxz csz t).
+Proof. exact X86SimCtl.jcxz_sim. Qed.
+Print Assumptions jcxz_sim.
+Theorem loop_sim : forall m addr len k t, k = 0 \/ k = 1 \/ k = 2 -> sim m addr len (ILoop k t).
+Proof. exact X86SimCtl.loop_sim. Qed.
+Print Assumptions loop_sim.
